@@ -124,6 +124,12 @@ class GenericSystemRegistry(
         self._base_units_cache = {}
         self._default_system_name = name
 
+    def _forget_memoized_readings(
+        self, names: set[str], redefinition: bool = False
+    ) -> None:
+        super()._forget_memoized_readings(names, redefinition)
+        self._base_units_cache = {}
+
     def get_system(self, name: str, create_if_needed: bool = True) -> objects.System:
         """Return a Group.
 
